@@ -7,12 +7,12 @@ API path × lease validity = 4·3·2·5·3·2 = 720 cases), so a case analysis o
 sample. `route` is the model of the code as it is (tied to the real functions by the `readroute`
 correspondence, which enumerates the whole product on every run).
 
-* `nonleader_never_serves_strong` — full strength, holds as coded.
-* `override_allowed_means_client_policy` — full strength, holds as coded.
-* `NoOverrideMeansDefaultStatement` — the property's second sentence. **False as coded** (finding F14: the
-  gRPC fast path `handle_client_read → StandaloneReadHandle::get_batch → ReadActor` and the embedded fast
-  path `EmbeddedReadHandle::get_batch` never look at `allow_client_override`). We prove its negation from a
-  concrete witness and `no_override_means_default_partial` under the exact excluded trigger `f14Trigger`.
+* `nonleader_never_serves_strong`, `nonleader_strong_reports_not_leader` — full strength.
+* `override_allowed_means_client_policy` — full strength.
+* `no_override_means_default` — full strength since the fix of F14 (the gRPC fast path
+  `handle_client_read → StandaloneReadHandle::get_batch → ReadActor` and the embedded fast path
+  `EmbeddedReadHandle::get_batch` now replace a client-supplied policy by the server default when
+  `allow_client_override` is off). The old witnesses are regression cases.
 -/
 namespace DEngine.C13
 open DEngine.ReadRoute
@@ -39,14 +39,14 @@ theorem nonleader_never_serves_strong :
   simp [hl, hr]
 
 /-- …and whenever the policy in force (client's if override is allowed, else the default) is strong, the
-    non-leader's answer is exactly "not leader" — outside the F14 trigger. -/
+    non-leader's answer is exactly "not leader". -/
 theorem nonleader_strong_reports_not_leader :
-    ∀ c : Case, c.role ≠ .leader → c.leaseValid = false → f14Trigger c = false →
+    ∀ c : Case, c.role ≠ .leader → c.leaseValid = false →
       (clientPolicy c).strong = true → route c = .notLeader ∨ route c = .na := by
-  have h : ∀ c : Case, (c.role != .leader && !c.leaseValid && !f14Trigger c && (clientPolicy c).strong) →
+  have h : ∀ c : Case, (c.role != .leader && !c.leaseValid && (clientPolicy c).strong) →
       (route c == .notLeader || route c == .na) = true := by all_cases
-  intro c hr hl hf hs
-  have := h c (by simp [hr, hl, hf, hs])
+  intro c hr hl hs
+  have := h c (by simp [hr, hl, hs])
   simpa using this
 
 /-- Override allowed ⇒ the client's policy (or the default if it named none) is the one in force, on every
@@ -57,45 +57,24 @@ theorem override_allowed_means_client_policy :
   intro c ho
   exact h c ho
 
-/-- **C13, second sentence — the full statement.** -/
-def NoOverrideMeansDefaultStatement : Prop :=
-  ∀ c : Case, c.ovr = false → servedUnder c.role c.dflt (route c) = true
+/-- **C13, second sentence (full strength).** Override disallowed ⇒ on every API path, for every role, client
+    policy and lease state, the read is served under the server default (locally / queued at the leader under
+    exactly the default, or — strong default on a non-leader — refused with "not leader"). Holds since the fix
+    "read fast paths honour allow_client_override" (finding F14, now closed). -/
+theorem no_override_means_default :
+    ∀ c : Case, c.ovr = false → servedUnder c.role c.dflt (route c) = true := by
+  have h : ∀ c : Case, (!c.ovr) → servedUnder c.role c.dflt (route c) = true := by all_cases
+  intro c ho
+  exact h c (by simp [ho])
 
-/-- F14 witness: gRPC read on the leader, server default Linearizable, override disallowed, the client asks
-    for EventualConsistency: answered from local state under the *client's* policy. -/
+/-- the old F14 witnesses (kept as regression cases in corpus/readroute/f14.case) are now served under the
+    default: the gRPC read goes to the leader's linearizable queue, the embedded read on a follower is refused -/
 def f14Witness : Case :=
   { role := .leader, dflt := .lin, ovr := false, cli := .some .ev, path := .grpc, leaseValid := false }
-
-/-- Same on a follower through the embedded client. -/
 def f14WitnessEmb : Case :=
   { role := .follower, dflt := .lin, ovr := false, cli := .some .ev, path := .emb, leaseValid := false }
-
-theorem f14Witness_route : route f14Witness = .localRead true .ev := by decide
-theorem f14WitnessEmb_route : route f14WitnessEmb = .localRead true .ev := by decide
-
-/-- **As coded the statement is false** (kernel-checked, from the witness). -/
-theorem no_override_means_default_false : ¬ NoOverrideMeansDefaultStatement := by
-  intro h
-  have := h f14Witness rfl
-  revert this
-  decide
-
-/-- **Partial theorem**: outside the exact F14 trigger the statement holds for every case — in particular on
-    the whole Raft command path, for requests without a policy, for Linearizable requests, and for lease
-    requests while the lease is invalid. -/
-theorem no_override_means_default_partial :
-    ∀ c : Case, f14Trigger c = false → c.ovr = false → servedUnder c.role c.dflt (route c) = true := by
-  have h : ∀ c : Case, (!f14Trigger c && !c.ovr) → servedUnder c.role c.dflt (route c) = true := by all_cases
-  intro c hf ho
-  exact h c (by simp [hf, ho])
-
-/-- The trigger is tight: *every* triggering case violates the statement (so the partial theorem excludes
-    nothing it does not have to). -/
-theorem f14_trigger_tight :
-    ∀ c : Case, f14Trigger c = true → servedUnder c.role c.dflt (route c) = false := by
-  have h : ∀ c : Case, f14Trigger c → servedUnder c.role c.dflt (route c) = false := by all_cases
-  intro c hf
-  exact h c hf
+theorem f14Witness_route : route f14Witness = .leaderQ .lin := by decide
+theorem f14WitnessEmb_route : route f14WitnessEmb = .notLeader := by decide
 
 /-- The monitor is exactly the conjunction of the three predicates above (so a monitor `ok` on an observed
     outcome means the observed outcome satisfies the theorems' conclusions). -/
@@ -112,10 +91,8 @@ theorem monitor_ok_iff (c : Case) (o : Outcome) (hna : o ≠ .na) :
     cases h3 : servedUnder c.role (clientPolicy c) o <;> cases hf : f14Trigger c <;>
     simp_all
 
-/-- The model passes its own monitor exactly outside the F14 trigger. -/
-theorem model_monitor :
-    ∀ c : Case, monitorC13 c (route c) =
-      (if f14Trigger c && route c != .na then some "f14-fast-path-ignores-override" else none) := by
+/-- The model passes its own monitor on every case. -/
+theorem model_monitor : ∀ c : Case, monitorC13 c (route c) = none := by
   all_cases
 
 /-! Non-vacuity: the hypotheses are satisfiable by non-trivial cases, and the conclusions are not all the
@@ -125,7 +102,6 @@ example : (⟨.follower, .lin, true, .some .lease, .grpc, false⟩ : Case).role 
 example : route ⟨.candidate, .lin, true, .some .ev, .raft, false⟩ = .localRead false .ev := by decide
 example : route ⟨.leader, .ev, false, .some .lin, .raft, false⟩ = .leaderQ .ev := by decide
 example : route ⟨.leader, .ev, true, .some .lin, .grpc, false⟩ = .leaderQ .lin := by decide
-example : f14Trigger ⟨.leader, .ev, false, .some .lin, .grpc, false⟩ = false := by decide
-example : f14Trigger f14Witness = true := by decide
+example : route ⟨.leader, .ev, false, .some .lease, .emb, true⟩ = .localRead true .ev := by decide
 
 end DEngine.C13
